@@ -85,8 +85,15 @@ pub proof fn lemma_farey_gap(ln: int, ld: int, rn: int, rd: int, p: int, q: int)
     let c = rn * q - p * rd;
     assert(a >= 1);
     assert(c >= 1);
-    assert(q == ld * c + rd * a) by (nonlinear_arith)
-        requires rn * ld - ln * rd == 1, a == p * ld - ln * q, c == rn * q - p * rd;
+    let (x1, x2, y1, y2) = (rn * q, p * rd, p * ld, ln * q);
+    let (k1, k2) = (rn * ld, ln * rd);
+    assert(ld * c == ld * x1 - ld * x2) by (nonlinear_arith) requires c == x1 - x2;
+    assert(rd * a == rd * y1 - rd * y2) by (nonlinear_arith) requires a == y1 - y2;
+    assert(ld * x2 == rd * y1) by (nonlinear_arith) requires x2 == p * rd, y1 == p * ld;
+    assert(ld * x1 == q * k1) by (nonlinear_arith) requires x1 == rn * q, k1 == rn * ld;
+    assert(rd * y2 == q * k2) by (nonlinear_arith) requires y2 == ln * q, k2 == ln * rd;
+    assert(q * k1 - q * k2 == q) by (nonlinear_arith) requires k1 - k2 == 1;
+    assert(q == ld * c + rd * a);
     assert(ld * c >= ld) by (nonlinear_arith) requires ld >= 1, c >= 1;
     assert(rd * a >= rd) by (nonlinear_arith) requires rd >= 1, a >= 1;
 }
